@@ -31,6 +31,10 @@ fn ready<T>(f: impl std::future::Future<Output = T>) -> T {
 }
 trait Handle {
     fn mk(&mut self, req: &Req) -> CallFut;
+    /// poll_ready only (the handle is parked afterwards)
+    fn ready(&mut self);
+    /// Service::call on this very handle (driven to readiness earlier)
+    fn call_now(&mut self, req: &Req) -> CallFut;
     fn op(&self, name: &str);
     fn obs(&self) -> Obj;
     fn boxed(&self) -> Box<dyn Handle>;
@@ -43,6 +47,15 @@ macro_rules! handle_impl {
             let mut cx = std::task::Context::from_waker(&w);
             let _ = s.poll_ready(&mut cx);
             let f = s.call(req.clone());
+            Box::pin(async move { map_res(f.await) })
+        }
+        fn ready(&mut self) {
+            let w = futures::task::noop_waker();
+            let mut cx = std::task::Context::from_waker(&w);
+            let _ = self.poll_ready(&mut cx);
+        }
+        fn call_now(&mut self, req: &Req) -> CallFut {
+            let f = self.call(req.clone());
             Box::pin(async move { map_res(f.await) })
         }
         fn op(&self, name: &str) {
@@ -85,11 +98,18 @@ where
 
 pub struct CbAd {
     h: Option<Box<dyn Handle>>,
+    /// a clone taken before with_fallback / at build time: manual operations and state views go through it
+    ctl: Option<Box<dyn Handle>>,
+    /// hm = 2: handles driven to readiness long ago (the oldest at build time); every third request uses the oldest
+    parked: std::collections::VecDeque<Box<dyn Handle>>,
+    nmk: u64,
+    hm: u64,
+    nops: u64,
     variant: String,
 }
 impl CbAd {
     pub fn new(variant: &str) -> Self {
-        CbAd { h: None, variant: if variant.is_empty() { "conc".into() } else { variant.into() } }
+        CbAd { h: None, ctl: None, parked: Default::default(), nmk: 0, hm: 0, nops: 0, variant: if variant.is_empty() { "conc".into() } else { variant.into() } }
     }
 }
 fn q(x: u64) -> f64 {
@@ -113,6 +133,7 @@ impl Adapter for CbAd {
             "lazy": if seq && rng.pct(40) { 1 } else { 0 },
             "ctor": rng.below(2),
             "ord": rng.below(2),
+            "hm": rng.below(3),
         })
     }
     fn build(&mut self, cfg: &Value, sim: &mut Sim) {
@@ -141,9 +162,11 @@ impl Adapter for CbAd {
         let fallback = |r: Req| -> BoxFuture<'static, Result<Resp, IErr>> { Box::pin(async move { Ok(Resp { serial: 9000 + r.id as u64, req: r.id }) }) };
         use tower::Layer;
         let via_layer = cfg["ctor"].as_u64().unwrap_or(0) == 1;
+        let ctl: Box<dyn Handle>;
         let h: Box<dyn Handle> = if cfg["cls"] == "default" {
             let b = opts!(CircuitBreakerLayer::builder());
             let svc = if via_layer { b.build().layer(inner) } else { b.build().layer_fn(inner) };
+            ctl = svc.boxed();
             if fb {
                 Box::new(svc.with_fallback(fallback))
             } else {
@@ -157,21 +180,62 @@ impl Adapter for CbAd {
                 opts!(CircuitBreakerLayer::builder()).failure_classifier(cls).build()
             };
             let svc = if via_layer { l.layer(inner) } else { l.layer_fn(inner) };
+            ctl = svc.boxed();
             if fb {
                 Box::new(svc.with_fallback(fallback))
             } else {
                 Box::new(svc)
             }
         };
-        let h2 = h.boxed();
+        // every handle of one breaker shares its state: the views are read through the clone taken
+        // before the fallback was attached, manual operations alternate between the two
+        let h2 = ctl.boxed();
+        self.hm = cfg["hm"].as_u64().unwrap_or(0);
+        self.nops = 0;
+        self.nmk = 0;
+        self.parked.clear();
+        for _ in 0..3 {
+            let mut p = h.boxed();
+            p.ready();
+            self.parked.push_back(p);
+        }
         self.h = Some(h);
+        self.ctl = Some(ctl);
         sim.obs = Some(Box::new(move || h2.obs()));
     }
     fn mk(&mut self, req: &Req) -> CallFut {
-        self.h.as_mut().unwrap().mk(req)
+        match self.hm {
+            1 => {
+                // one long-lived handle: poll_ready and call on it for every request
+                let h = self.h.as_mut().unwrap();
+                h.ready();
+                h.call_now(req)
+            }
+            2 => {
+                // Tower allows any delay between readiness and the call: every third request uses the handle
+                // that has been ready (and parked) the longest
+                self.nmk += 1;
+                if self.nmk % 3 == 0 {
+                    let mut p = self.parked.pop_front().unwrap();
+                    let f = p.call_now(req);
+                    let mut next = self.h.as_ref().unwrap().boxed();
+                    next.ready();
+                    self.parked.push_back(next);
+                    f
+                } else {
+                    self.h.as_mut().unwrap().mk(req)
+                }
+            }
+            _ => self.h.as_mut().unwrap().mk(req),
+        }
     }
     fn op(&mut self, name: &str, _ev: &Value, _sim: &mut Sim) -> (Value, Obj) {
-        self.h.as_ref().unwrap().op(name);
+        self.nops += 1;
+        if self.nops % 2 == 1 {
+            self.ctl.as_ref().unwrap().op(name);
+        } else {
+            self.h.as_ref().unwrap().op(name);
+        }
         (Value::Null, Obj::new())
     }
     fn params(&self, cfg: &Value, size: Size, rng: &mut Rng) -> DriveParams {
@@ -287,5 +351,7 @@ impl Adapter for CbAd {
     }
     fn teardown(&mut self) {
         self.h = None;
+        self.ctl = None;
+        self.parked.clear();
     }
 }
